@@ -9,7 +9,7 @@ stream and no other source of that stream has started  =>  per-stream order and 
 import z3
 
 from pyvc.values import *   # noqa
-from pyvc.engine import LoopSpec, EXC
+from pyvc.engine import LoopSpec, EXC, Builtin
 from pyvc.harness import harness, new_obj, OpaqueLog
 from pyvc import models as M
 from pyvc import aio
@@ -421,3 +421,53 @@ def queue_frame_condition(E):
                 z3.And([z3.Implies(B(it.attrs['started']), any(x is it for x in left)) for it in items]))
         order = [items.index(x) for x in left if any(x is y for y in items)]
         E.prove('frame_condition:queue_order_kept[%s.%s]' % (cname, mname), order == sorted(order))
+
+
+@harness('c05.peek.waiting', ['C05'], functions=[QP + '.peek', QP + '.peek_nowait'],
+         assumptions=['asyncio.Queue internals as in CPython 3.8-3.12: put_nowait appends the item, then _wakeup_next pops the first '
+                      'waiter of _getters that is not done and gives it a result; waiters are plain loop futures'])
+def peek_waiting(E):
+    """The sender parks in peek() while the queue is empty.  When another coroutine queues a frame, peek() returns that
+    frame WITHOUT removing it; when the wait fails, the waiter is withdrawn and a frame that arrived meanwhile is handed to
+    the next waiter - nothing is lost, nothing is taken twice."""
+    E.import_module('asyncio')
+    q = E.call(E.lookup(QP), [])
+    item = SOpaque('frame', 'queued-while-waiting')
+    how = E.path.choice(3, 'wait-ends-by')           # 0 put_nowait wakes us, 1 wait fails and nothing arrived, 2 fails but an item arrived
+    err = E.make_exc('RuntimeError', 'loop shutting down')
+    other = aio.new_future(E)
+    woken = []
+
+    def on_suspend(E_, what):
+        kind, fut = what
+        if kind != 'future':
+            return None
+        getters = q.attrs['_getters']
+        E_.prove('peek:parks_exactly_one_waiter_in_the_getters_list', len(getters) == 1 and getters[0] is fut)
+        if how == 0:
+            q.attrs['_queue'].append(item)       # put_nowait(item) by another coroutine ...
+            getters.remove(fut)                  # ... whose _wakeup_next pops the waiter
+            fut.attrs['state'], fut.attrs['value'] = 'result', None
+        else:
+            if how == 2:
+                q.attrs['_queue'].append(item)
+                getters.append(other)            # somebody else waits as well
+            fut.attrs['state'], fut.attrs['value'] = 'exception', err
+        return None
+    E.suspend_hook = on_suspend
+    q.attrs['_wakeup_next'] = Builtin('Queue._wakeup_next', lambda waiters: woken.append(list(waiters)))
+    if True:
+        try:
+            r = E.await_value(E.call(E.getattr(q, 'peek'), []))
+        except PyExc as e:
+            E.cover('wait-failed')
+            E.prove('peek:only_the_failure_of_the_wait_escapes', how in (1, 2) and e.value is err)
+            E.prove('peek:failed_waiter_withdrawn', not any(g is not other for g in q.attrs['_getters']))
+            E.prove('peek:a_frame_that_arrived_meanwhile_stays_queued', len(q.attrs['_queue']) == (1 if how == 2 else 0))
+            if how == 2:
+                E.prove('peek:the_next_waiter_is_woken_for_the_frame_it_cannot_take', len(woken) == 1)
+            return
+        E.cover('woken')
+        E.prove('peek:returns_the_frame_that_was_queued', how == 0 and r is item)
+        E.prove('peek:does_not_remove_it', len(q.attrs['_queue']) == 1 and q.attrs['_queue'][0] is item)
+        E.prove('peek:no_waiter_left_behind', q.attrs['_getters'] == [])
